@@ -344,6 +344,15 @@ def hypothesis_shard(item: dict[str, Any]) -> Collector:
         nan_n = draw(st.sampled_from([0, 0, 0, 1, 2]))
         case["nans"] = sorted({(draw(st.integers(0, r_n - 1)), draw(st.integers(-1, p_n - 1)), draw(st.integers(0, k_n + c_n - 1)))
                                for _ in range(nan_n)})
+        if r_n > 1 and n < p_n and not merge and draw(st.integers(0, 3)) == 0:
+            # staggered failures under one shared design: in every realization another perturbation fails, each realization keeps
+            # P-1 perturbations of its own (spanning the variables), the perturbations that succeeded everywhere need not span them
+            rows = [[1.0 if i == p else 0.0 for i in range(n)] for p in range(n)]
+            rows += [[draw(st.sampled_from([-1.0, 1.0, 0.5, -0.5])) for _ in range(n)] for _ in range(p_n - n)]
+            case["sampler"] = {"kind": "design", "shape": "staggered", "samples": [rows]}
+            case["nans"] = sorted({(r, r, draw(st.integers(0, k_n + c_n - 1))) for r in range(min(r_n, p_n - 1))})
+            case["pmin"] = min(case["pmin"], p_n - 1)
+            case["staggered"] = True
         return case
 
     def body(case: dict[str, Any]) -> None:
@@ -359,7 +368,7 @@ def hypothesis_shard(item: dict[str, Any]) -> Collector:
             "compared" if info["compared"] else ("rejected" if info.get("rejected") else ("aborted" if info["aborted"] else
                                                   ("no-gradient" if info["no_gradient"] else "ill-conditioned"))),
             f"split={case['split']}", "scaled" if case["scales"] else "unscaled",
-            "stddev" if "stddev" in case["estimators"] else "mean-only", "failures" if case["nans"] else "no-failures",
+            "stddev" if "stddev" in case["estimators"] else "mean-only", ("staggered-failures" if case.get("staggered") else "failures") if case["nans"] else "no-failures",
             "bound-hit" if info["hit_bound"] else "inside", "filtered" if case["filters"] else "unfiltered",
             "negative-weight" if min(case["weights"]) < 0 else "non-negative-weights", "large-common-offset" if case.get("common_offset") else "moderate-levels", f"unit={case['unit']:g}"))
 
